@@ -1,6 +1,7 @@
 /- JSON op for the model of `pyndl.activation.activation` (C12) -/
 import PyndlDriver.Json
 import PyndlModel.Activation
+import PyndlModel.ActivationMP
 
 open Lean
 
@@ -51,7 +52,25 @@ def opActivation (j : Json) : M Json := do
       | .ok rs => pure (Json.mkObj [("by_outcome", Json.arr (rs.map (fun (o, vs) =>
           Json.arr #[Json.str o, jTRs vs])).toArray)])
 
+/-- op activation_mp: the matrix request of `activation` plus `"order": [k, ...]`
+    (the completion order of the per-event tasks; the harness sends a permutation of
+    `0 … n_events-1`): the model of the `n_jobs >= 2` path on a zero-initialised
+    shared buffer.  A store outside the buffer (an `order` entry that is no event
+    index) is answered `Raised:Other`. -/
+def opActivationMP (j : Json) : M Json := do
+  let p ← getPolicy j "policy"
+  let evs ← (← getArr j "events").toList.mapM asStrList
+  let outs ← asStrList (← j.getObjVal? "outcomes")
+  let cues ← asStrList (← j.getObjVal? "cues")
+  let vals ← (← getArr j "vals").toList.mapM asTR
+  let order ← asNatList (← j.getObjVal? "order")
+  let w : LW TR := ⟨outs, cues, vals.toArray⟩
+  match activationMatrixMP p (getBoolD j "ignore_missing" false) w evs order (mpZeros outs.length evs.length) with
+  | .error e => pure (jErr e)
+  | .ok rows => pure (Json.mkObj [("outcomes", jStrs outs), ("by_event", Json.arr (rows.map jTRs).toArray)])
+
 def handleAct? (op : String) (j : Json) : Option (M Json) :=
-  if op == "activation" then some (opActivation j) else none
+  if op == "activation" then some (opActivation j)
+  else if op == "activation_mp" then some (opActivationMP j) else none
 
 end PyndlDriver
